@@ -141,7 +141,8 @@ std::string text(const Prog& p)
 {
     if (p.conc) {
         static const char* v[] = {"", "trigger destroyed by its thread", "trigger move-constructed, moved-from destroyed first",
-                                  "trigger created by main, moved into the triggering thread", "trigger on an indexed line, detector on the other index polls too"};
+                                  "trigger created by main, moved into the triggering thread", "trigger on an indexed line, detector on the other index polls too",
+                                  "trigger destroyed by its thread, all pollers share ONE detector object"};
         return std::string("TripWire concurrent: ") + v[p.conc] + " | " + std::to_string(p.pollers) + " poller(s) x " +
             std::to_string(p.polls) + " isTripped(), data read on first true";
     }
@@ -176,6 +177,7 @@ struct Shared {
     int data = 0;
     int data2 = 0;
     std::optional<TripWireTrigger> handoff;
+    std::optional<TripWireDetector> shared_det;  // one detector object polled by several threads (variant 5)
 };
 
 void body_conc(const Prog& p)
@@ -187,10 +189,11 @@ void body_conc(const Prog& p)
     sh->other = make_tripline();
     const int variant = p.conc;
     if (variant == 3) sh->handoff.emplace(sh->line);
+    if (variant == 5) sh->shared_det.emplace(sh->line);
     {
         std::vector<int> ids;
         ids.push_back(spawn([sh, variant] {
-            if (variant == 1) {
+            if (variant == 1 || variant == 5) {
                 TripWireTrigger t(sh->line);
                 sh->data = 41;
                 point();
@@ -218,7 +221,8 @@ void body_conc(const Prog& p)
         }));
         for (int i = 0; i < p.pollers; i++)
             ids.push_back(spawn([sh, variant, polls = p.polls] {
-                TripWireDetector det = variant == 4 ? TripWireDetector(0u) : TripWireDetector(sh->line);
+                TripWireDetector own = variant == 4 ? TripWireDetector(0u) : TripWireDetector(sh->line);
+                const TripWireDetector& det = variant == 5 ? *sh->shared_det : own;
                 TripWireDetector odet = variant == 4 ? TripWireDetector(1u) : TripWireDetector(sh->other);
                 bool seen = false;
                 for (int k = 0; k < polls; k++) {
@@ -243,6 +247,7 @@ void body_conc(const Prog& p)
         MC_CHECK(sh->data == 41 && sh->data2 == 42, "unpublished", "data not visible after join");
     }
     if (variant == 3) sh->handoff.reset();  // moved-from object in the hand-off slot
+    sh->shared_det.reset();
     delete sh;
     MC_CHECK(live_blocks() == base_blocks, "leak", "%zu arena blocks not freed", live_blocks() - base_blocks);
 }
@@ -274,8 +279,8 @@ void make_items(const Options& o, std::vector<Item>& items)
         it.bounds = hx::tier_bounds(o, 0, 0);
         items.push_back(it);
     }
-    for (int v = 1; v <= 4; v++)
-        for (int pollers = 1; pollers <= 2; pollers++)
+    for (int v = 1; v <= 5; v++)
+        for (int pollers = (v == 5 ? 2 : 1); pollers <= 2; pollers++)
             for (int polls = 1; polls <= 3; polls++) {
                 if (!thorough && pollers == 2 && polls == 3) continue;
                 Prog p;
